@@ -302,7 +302,7 @@ C('cross_act._inter_build', params={'d': 'num', 'D': 'num|none'}, returns='objar
 C('cross_act._inter_update',
   params={'Gx': 'objarr(arr3)', 'Gy': 'arr3', 'Gz': 'arr3|none', 'Rx': 'objarr(arr2)', 'Ry': 'arr2', 'Rz': 'arr2',
           'Rxz': 'objarr(arr2)', 'Ryz': 'arr2'}, rng=('param',),
-  returns='tuple(list(arr2),arr2,arr2~Rz,list(arr2)|~Rxz,arr2~Ryz)',
+  returns='tuple(list(arr),arr,arr~Rz,list(arr)|~Rxz,arr~Ryz)',
   licence=L_PRIV + ': without an error tensor (Gz is None) the z-interfaces are passed through unchanged')
 C('cross_act._log', params={'e': 'num'}, returns='none')
 C('cross_act._matrix_to_core', params={'M': 'arr2', 'n': 'num'}, returns='arr3~M',
